@@ -46,23 +46,54 @@ def calendars():
     return [(i, CalendarSystem.for_id(i)) for i in CalendarSystem.ids]
 
 
+DISAGREEMENTS: list = []     # library defects seen by the self-check (private and public day-number paths disagree, private is right)
+
+
 def _selfcheck():
+    """Choose the day-number binding.  Private and public paths must agree on a probe set.  When they do not, the standard
+    library arbitrates on ISO dates: if the private path matches datetime.date.toordinal it stays the oracle binding and the
+    disagreement is recorded as a library defect (Period.days_between is wrong somewhere - e.g. state carried between
+    calendars); if only the public path matches, the private attribute has drifted and the public path is used (degraded)."""
+    import datetime
     global daynum, from_daynum
     daynum, from_daynum = _daynum_private, _from_daynum_private
     probes = (-1, 0, 1, 59, 60, 365, 366, 11016, 20000, -20000)
     try:
-        for _, cal in calendars():
-            lo, hi = _range_public(cal) if not hasattr(cal, "_min_days") else (cal._min_days, cal._max_days)
-            for n in probes:
-                if not (lo <= n <= hi):
-                    continue
-                a = _from_daynum_private(n, cal)
-                b = _from_daynum_public(n, cal)
-                if a != b or _daynum_private(a) != n or _daynum_public(a) != n:
-                    raise AssertionError("private/public day-number paths disagree for %s day %d" % (cal.id, n))
-    except Exception as e:  # noqa: BLE001 - any drift => public path
+        for n in probes:            # private path usable and right on ISO?
+            d = _from_daynum_private(n, CalendarSystem.iso)
+            if _daynum_private(d) != n or datetime.date(d.year, d.month, d.day).toordinal() - 719163 != n:
+                raise AssertionError("private day-number path disagrees with datetime for ISO day %d" % n)
+    except Exception as e:  # noqa: BLE001 - missing / drifted private API => public path
         daynum, from_daynum = _daynum_public, _from_daynum_public
         DEGRADED.append("dateline: private day-number fast path unavailable (%s: %s); public path used" % (type(e).__name__, str(e)[:80]))
+        return
+    for _, cal in calendars():
+        try:
+            lo, hi = cal._min_days, cal._max_days
+        except AttributeError:
+            lo, hi = _range_public(cal)
+        for n in probes:
+            if not (lo <= n <= hi):
+                continue
+            try:
+                a = _from_daynum_private(n, cal)
+                pub = (_daynum_public(a), ymd(_from_daynum_public(n, cal)))
+                if _daynum_private(a) != n:
+                    raise AssertionError("private round trip broken")
+            except Exception as e:  # noqa: BLE001
+                DEGRADED.append("dateline: self-check probe failed for %s day %d (%s); private path kept (it matches datetime on ISO)" % (cal.id, n, type(e).__name__))
+                continue
+            if pub != (n, ymd(a)):
+                DISAGREEMENTS.append({"calendar": cal.id, "day_number": n, "date": ymd(a), "public_days_between_epoch": pub[0], "public_plus_days_with_calendar": list(pub[1])})
+
+
+def report_disagreements(acc, pid):
+    """called by the checks: a private/public disagreement in which the private path agrees with datetime is a library defect."""
+    for d in DISAGREEMENTS[:20]:
+        acc.violation("%s/day-number-line/days_between-or-plus_days-disagrees-with-day-number/%s" % (pid, d["calendar"]),
+                      "Period.days_between(1970-01-01 in %s, %s) = %s / 1970-01-01.plus_days(%d).with_calendar = %s, but the date's day number is %d "
+                      "(asked after the same questions in other calendars)" % (d["calendar"], d["date"], d["public_days_between_epoch"], d["day_number"],
+                                                                               d["public_plus_days_with_calendar"], d["day_number"]), d)
 
 
 _RANGE = {}
@@ -72,12 +103,12 @@ def _range_public(cal):
     """first/last day number of the calendar using public API only: the extreme month starts of min/max year."""
     lo = None
     for m in range(1, cal.get_months_in_year(cal.min_year) + 1):
-        n = _daynum_public(LocalDate(cal.min_year, m, 1, cal))
+        n = daynum(LocalDate(cal.min_year, m, 1, cal))
         lo = n if lo is None or n < lo else lo
     hi = None
     y = cal.max_year
     for m in range(1, cal.get_months_in_year(y) + 1):
-        n = _daynum_public(LocalDate(y, m, cal.get_days_in_month(y, m), cal))
+        n = daynum(LocalDate(y, m, cal.get_days_in_month(y, m), cal))
         hi = n if hi is None or n > hi else hi
     return lo, hi
 
@@ -149,3 +180,38 @@ def leap_year_near(cal, year):
 daynum = _daynum_private
 from_daynum = _from_daynum_private
 _selfcheck()
+
+
+# ---- field values shared by many calendars (cross-calendar history checks of C09 / C18)
+CROSS_MD = ((1, 28), (2, 1), (2, 19), (2, 20), (3, 1), (3, 5), (6, 29), (7, 1), (12, 29))
+
+
+def cross_fields(years, mds=CROSS_MD):
+    """[(y, m, d)] field triples and {triple: {calendar id: LocalDate}} for every calendar in which the triple is a valid
+    date (decided by the validating public constructor).  For each year the first two days of year+1 are added too."""
+    fields = []
+    for y in years:
+        fields += [(y, m, d) for m, d in mds] + [(y + 1, 1, 1), (y + 1, 1, 2)]
+    valid = {}
+    for f in fields:
+        per = {}
+        for cid, cal in calendars():
+            try:
+                per[cid] = LocalDate(f[0], f[1], f[2], cal)
+            except Exception:  # noqa: BLE001 - not a date of that calendar
+                continue
+        valid[f] = per
+    return fields, valid
+
+
+def history_orders(pairs, cids, seed=0):
+    """{order name: [(pair, calendar id)]} - the same (pair, calendar) steps visited in different orders inside one process."""
+    r = seed % max(1, len(cids))
+    cs = cids[r:] + cids[:r]
+    out = {
+        "pair-major-forward": [(p, c) for p in pairs for c in cs],
+        "pair-major-reverse": [(p, c) for p in pairs for c in reversed(cs)],
+        "calendar-major": [(p, c) for c in cs for p in pairs],
+        "interleaved": [(p, (cs[i % len(cs):] + cs[:i % len(cs)])[::(1 if i % 2 == 0 else -1)][k]) for i, p in enumerate(pairs) for k in range(len(cs))],
+    }
+    return out
